@@ -6,7 +6,7 @@ for N in $SEEDS; do
   P=${N:0:3}
   if [ -n "$(git -C /repo status --porcelain)" ]; then echo "/repo not clean"; exit 2; fi
   git -C /repo apply /verif/seeded/$N/patch.diff || { echo "$N: patch does not apply"; continue; }
-  OUT=$(./bin/gowp check -property $P -tier quick 2>&1); RC=$?
+  OUT=$(GOWP_EVIDENCE=/var/tmp/gowp_seeded_evidence ./bin/gowp check -property $P -tier quick 2>&1); RC=$?
   git -C /repo checkout -- .
   V=$(echo "$OUT" | grep -c "^VIOLATION"); M=$(echo "$OUT" | grep -c "^MACHINERY")
   echo "$N vs $P: rc=$RC violations=$V machinery=$M :: $(echo "$OUT" | grep "^VIOLATION\|^MACHINERY" | head -2 | sed 's|/verif/out/||' | tr '\n' ' ' | cut -c1-200)"
